@@ -16,11 +16,19 @@ macro "wrap_simp" : tactic => `(tactic|
     Region.set_apply, Region.zero, Region.mk_apply, BitVec.zero_mul, BitVec.one_mul, BitVec.toNat_ofNat, Nat.zero_mod,
     ↓reduceIte, Nat.reduceEqDiff])
 
-/-- unfold the generated wrapper, normalise gathers / scatters, close by reflexivity -/
+/-- running indices (`k += stride` carried through the unrolled iterations) folded into `i * stride` -/
+macro "run_idx_simp" : tactic => `(tactic|
+  simp only [BitVec.zero_add, BitVec.add_zero, BitVec.zero_mul, BitVec.one_mul, BitVec.mul_zero, BitVec.mul_one,
+    BitVec.run_two, BitVec.run_succ, BitVec.run_succ', Nat.reduceAdd, BitVec.toNat_ofNat, Nat.zero_mod])
+
+/-- unfold the generated wrapper, normalise gathers / scatters, close by reflexivity; last resort: the wrapper carries its
+    strided indices from iteration to iteration (`k1 += offset1`) — fold them into `i * offset1` on both sides -/
 macro "wrap_proof " f:ident : tactic => `(tactic|
   first
   | (unfold $f; wrap_simp; done)
   | (unfold $f; wrap_simp; rfl)
-  | (unfold $f; rfl))
+  | (unfold $f; rfl)
+  | (unfold $f; wrap_simp; run_idx_simp; done)
+  | (unfold $f; wrap_simp; run_idx_simp; rfl))
 
 end GoldilocksVerif
